@@ -229,12 +229,12 @@ func contains(ss []string, s string) bool {
 
 // Opts is the serialisable option set of a case.
 type Opts struct {
-	Silent bool              `json:"silent,omitempty"`
-	TZ     bool              `json:"tz,omitempty"`
-	Zone   string            `json:"zone,omitempty"` // "", "UTC", "+05:30", "America/New_York" ...
-	Vars   map[string]string `json:"vars,omitempty"` // name -> JSON text
-	HasVars bool             `json:"has_vars,omitempty"`
-	UseNumber bool           `json:"use_number,omitempty"`
+	Silent    bool              `json:"silent,omitempty"`
+	TZ        bool              `json:"tz,omitempty"`
+	Zone      string            `json:"zone,omitempty"` // "", "UTC", "+05:30", "America/New_York" ...
+	Vars      map[string]string `json:"vars,omitempty"` // name -> JSON text
+	HasVars   bool              `json:"has_vars,omitempty"`
+	UseNumber bool              `json:"use_number,omitempty"`
 }
 
 // Ctx builds the context carrying the case's zone.
